@@ -118,7 +118,7 @@ def _values(rng, t, n):
 
 def cases(rng, tier):
     for gen in (int_cases, ext_cases, float_cases, smallest_cases, column_cases, interval32_cases, decimals_cases, reuse_cases,
-                strtable_cases, level_cases, params_cases, rewrite_cases, names_cases, encser_cases, cont_cases, spell_cases, origin_cases, widepack_cases, pathwrite_cases, session_cases):
+                strtable_cases, level_cases, params_cases, rewrite_cases, names_cases, encser_cases, cont_cases, spell_cases, origin_cases, widepack_cases, pathwrite_cases, session_cases, misuse_cases):
         for c in gen(rng, tier):
             rt = c.get("rt")
             if rt and rt.get("enc") in ("rle", "delta", "pack", "bytes", "compress_int", "compress_float"):
@@ -359,6 +359,19 @@ def session_cases(rng, tier):
 
 
 
+def misuse_cases(rng, tier):
+    """Arrays an encoding's stored type cannot hold, handed to it anyway: float data to the integer encodings, non-finite or
+    out-of-interval values to the interval quantisation.  The property asks for a refusal or an (exact / within-precision) round trip."""
+    for _ in range(16 if tier == "quick" else 150):
+        which = rng.choice(["delta", "pack", "rle", "delta+pack", "interval", "interval"])
+        if which == "interval":
+            xs = [rng.choice(["nan", "inf", "-inf", "25.0", "5.0", "15.25", "10.0", "20.0", "20.5", "9.75"]) for _ in range(rng.randint(1, 5))]
+        else:
+            xs = [repr(rng.choice([1.5, 2.25, -0.75, 3.0, 1e10, 0.1, 7.0])) for _ in range(rng.randint(1, 5))]
+        yield {"kind": "misuse/" + which, "rt": {"enc": "misuse", "which": which, "ft": rng.choice(["f4", "f8"]), "data": xs}}
+
+
+
 def interval32_cases(rng, tier):
     """oracle-only: IntervalQuantization on float32/float64 data over non-dyadic grids (0..1 in 11 steps, ...)."""
     for _ in range(60 if tier == "quick" else 1500):
@@ -395,8 +408,6 @@ def int_cases(rng, tier):
             yield {"kind": "rle_dec", "ops": [f"rle_dec {t6} {srcsize} {_ints(pairs)}"]}
         elif kind == "delta":
             xs = _values(rng, t, n)
-            if t == "i64" and xs:
-                xs[0] = rng.randint(-1000, 1000)     # origin must fit the stored int32 for `+=` to be defined
             case = {"kind": "delta", "ops": [f"delta_enc {t} {_ints(xs)}"], "rt": {"enc": "delta", "dtype": t, "data": xs}}
             if xs:
                 ds = _values(rng, "i32", rng.randint(0, 6))
@@ -952,10 +963,25 @@ def oracle(case):
             back = enc.decode(enc.encode(arr))
             if arr.dtype != before.dtype or not np.array_equal(arr, before):
                 v.append((f"C05/{kind}/argument-modified", f"{rt}: the caller's array was changed to {arr.tolist()[:12]}"))
-        except Exception:
-            return []          # rejected: allowed by the property
+        except Exception as e:  # noqa: BLE001
+            # a refusal is what the property asks for values the stored type cannot hold — and only for those
+            sup = SUPPORTED[rt["dtype"]] if kind != "pack" else "i32"
+            lo, hi = RANGE[rt["dst"]] if kind == "bytes" else RANGE[sup]
+            legit = (not data) or any(not lo <= x <= hi for x in data)
+            if kind == "pack":
+                legit = legit or rt["bc"] not in (1, 2) or (rt["u"] == "u" and any(x < 0 for x in data))
+            if kind == "delta" and "origin" in rt:
+                legit = legit or not lo <= rt["origin"] <= hi
+            if legit:
+                return v
+            if rt.get("be") and rt["dtype"] == "i64" and isinstance(e, KeyError):
+                # one call site: TypeCode.from_dtype compares `dtype == np.int64` (false for '>i8') before normalising the byte order
+                return v + [("C05/TypeCode.from_dtype/big-endian-int64-KeyError", f"{rt}: a big-endian int64 array whose values fit int32 is refused with KeyError {e}")]
+            return v + [(f"C05/{kind}/rejected-representable", f"{rt}: every value fits the stored type, yet encode/decode raised {type(e).__name__}: {str(e)[:80]}")]
         if len(back) != len(data) or any(int(a) != int(b) for a, b in zip(back, data)):
-            if kind == "delta" and rt["dtype"] == "i64":
+            if kind == "delta" and rt["dtype"] == "i64" and any(not -2 ** 31 <= x < 2 ** 31 for x in data):
+                key = "C05/DeltaEncoding/int64-values-exceed-int32"
+            elif kind == "delta" and rt["dtype"] == "i64":
                 key = "C05/DeltaEncoding/int64-differences-exceed-int32"
             else:
                 key = f"C05/{kind}/roundtrip"
@@ -987,8 +1013,9 @@ def oracle(case):
             return []
         step = (mx - mn) / (n - 1)
         for x, b in zip(xs, back):
-            if mn <= x <= mx and not (0 <= Fraction(float(b)) - x < step):
-                v.append(("C05/interval/precision", f"IntervalQuantization({mn},{mx},{n}) {x} -> {b}"))
+            if not (0 <= Fraction(float(b)) - x < step):
+                key = "C05/interval/precision" if mn <= x <= mx else "C05/IntervalQuantizationEncoding/value-outside-interval-altered"
+                v.append((key, f"IntervalQuantization({mn},{mx},{n}) {x} -> {b}"))
                 break
     elif kind == "string":
         arr = np.array(data, dtype="U")
@@ -997,8 +1024,12 @@ def oracle(case):
             back = bcif.BinaryCIFData.deserialize(d.serialize()).array
             c = _compress_fn(bcif.BinaryCIFData(arr))
             back2 = bcif.BinaryCIFData.deserialize(c.serialize()).array
-        except Exception:
-            return []
+        except Exception as e:  # noqa: BLE001
+            # every non-empty array of strings is representable: there is nothing a refusal could be about
+            # (the empty column is refused by compress() like the empty integer column, C05_rle_empty)
+            if not data:
+                return []
+            return [("C05/StringArray/rejected-representable", f"string array {data}: {type(e).__name__}: {str(e)[:80]}")]
         for bk, name in ((back, "StringArray"), (back2, "compress/StringArray")):
             if [str(x) for x in bk] != list(data):
                 v.append((f"C05/{name}/roundtrip", f"{data} -> {[str(x) for x in bk]}"))
@@ -1007,8 +1038,16 @@ def oracle(case):
         try:
             c = _compress_fn(bcif.BinaryCIFData(arr))
             back = bcif.BinaryCIFData.deserialize(c.serialize()).array
-        except Exception:
-            return []
+        except Exception as e:  # noqa: BLE001
+            lo, hi = RANGE[SUPPORTED[rt["dtype"]]]
+            fits = data and all(lo <= x <= hi for x in data)
+            if not fits:
+                # the type the format maps this dtype to (int64 -> INT32) cannot hold these values, or the array is empty:
+                # a refusal is what the property asks for (longer int64 arrays within uint32 are accepted through uint32, also fine)
+                return []
+            if rt.get("be") and rt["dtype"] == "i64" and isinstance(e, KeyError):
+                return [("C05/TypeCode.from_dtype/big-endian-int64-KeyError", f"compress() of {rt}: KeyError {e}")]
+            return [("C05/compress/int-rejected-representable", f"compress() of {rt}: {type(e).__name__}: {str(e)[:80]}")]
         if len(back) != len(data) or any(int(a) != int(b) for a, b in zip(back, data)):
             v.append(("C05/compress/int-roundtrip", f"{rt} -> {[int(x) for x in back][:12]} via {[type(e).__name__ for e in c.encoding]}"))
     elif kind == "compress_float":
@@ -1021,7 +1060,10 @@ def oracle(case):
         if res[0] == "timeout":
             return [("C05/compress/float-hang", f"compress() does not terminate on {data}")]
         if res[0] != "ok":
-            return []     # exception: rejected
+            # compress() always has the lossless byte fallback: no float array is unrepresentable
+            if len(data) == 0:
+                return []
+            return [("C05/compress/float-rejected", f"compress(tol={tol}) of {rt['ft']} {data}: {res[1:]}")]
         back, encs = res[1]
         eps = 2.0 ** -23 if rt["ft"] == "f4" else 2.0 ** -52
         for a, b in zip([float(x) for x in arr], back):
@@ -1150,6 +1192,8 @@ def oracle(case):
         v += _cont_oracle(case)
     elif kind == "spell":
         v += _spell_check(rt)
+    elif kind == "misuse":
+        v += _misuse_check(rt)
     elif kind == "widepack":
         v += _widepack_check(rt)
     elif kind == "pathwrite":
@@ -1713,6 +1757,46 @@ def _session_run(rt):
 
 
 
+def _misuse_check(rt):
+    import math
+    import warnings
+
+    import numpy as np
+    from biotite.structure.io.pdbx import bcif
+    from biotite.structure.io.pdbx import encoding as E
+    warnings.simplefilter("ignore", RuntimeWarning)
+    dt = np.float32 if rt["ft"] == "f4" else np.float64
+    with np.errstate(all="ignore"):
+        arr = np.array([float(x) for x in rt["data"]], dtype=dt)
+    which = rt["which"]
+    if which == "interval":
+        encs, prec = [E.IntervalQuantizationEncoding(10.0, 20.0, 21), E.ByteArrayEncoding()], 0.5
+    else:
+        encs = {"delta": [E.DeltaEncoding()], "pack": [E.IntegerPackingEncoding(2)], "rle": [E.RunLengthEncoding()],
+                "delta+pack": [E.DeltaEncoding(), E.IntegerPackingEncoding(2)]}[which] + [E.ByteArrayEncoding()]
+        prec = 0.0
+    try:
+        with np.errstate(all="ignore"):
+            back = bcif.BinaryCIFData.deserialize(bcif.BinaryCIFData(arr.copy(), encs).serialize()).array
+    except Exception:
+        return []            # refused: what the property asks for
+    for a, b in zip(arr.tolist(), [float(x) for x in back]):
+        same = (a == b) or (math.isnan(a) and math.isnan(b))
+        if same or (math.isfinite(a) and math.isfinite(b) and 0 <= b - a < prec + 1e-6):
+            continue
+        if which == "interval":
+            key = "C05/IntervalQuantizationEncoding/value-outside-interval-altered"
+        elif which.startswith("delta"):
+            key = "C05/DeltaEncoding/float-array-truncated"
+        elif which == "pack":
+            key = "C05/IntegerPackingEncoding/float-array-truncated"
+        else:
+            key = f"C05/misuse/{which}"
+        return [(key, f"{rt['ft']} {rt['data']} through {which} is accepted and decodes to {[float(x) for x in back][:8]}")]
+    return []
+
+
+
 def _file_roundtrip(rt):
     """BinaryCIFFile with int/float/string columns and masks: write -> read (plain and compressed) equal."""
     import io
@@ -1766,7 +1850,7 @@ def _file_roundtrip(rt):
 
 
 def nontrivial(case, impl_out):
-    if case["kind"].split("/")[0] in ("file", "column", "interval32", "decimals", "reuse", "u64", "strtable", "level", "params", "rewrite", "names", "encser", "cont", "spell", "delta_origin", "widepack", "pathwrite", "session"):
+    if case["kind"].split("/")[0] in ("file", "column", "interval32", "decimals", "reuse", "u64", "strtable", "level", "params", "rewrite", "names", "encser", "cont", "spell", "delta_origin", "widepack", "pathwrite", "session", "misuse"):
         return True
     data = (case.get("rt") or {}).get("data")
     if data is not None and len(set(data)) >= 2:
